@@ -48,6 +48,9 @@ WRITE_TABLE = {
     ('resource_provider_traits', 'resource_provider_id'): {'arg1'},
     ('resource_provider_traits', 'trait_id'): {'arg2[]'},
     ('consumer_types', 'name'): {'arg1'},
+    # online migration of rows from before nested providers: a provider
+    # without a recorded root is its own root (the row's own id column)
+    ('resource_providers', 'root_provider_id'): {'global:_RP_TBL.c.id'},
     ('projects', 'external_id'):
         {'arg0.config.placement.incomplete_consumer_project_id'},
     ('users', 'external_id'):
